@@ -9,9 +9,10 @@ import StraxModel.Model.FS
 
   chunks   `-` or `/`-separated `start;stop;rows`            (rows as everywhere: `t:e:id,…` or `-`)
   attempt  `variant|recheck|rmorder|fault|extraStart|extraChunks|abandoned|lostClose|show`
-           lostClose 1 = threaded processor as it is (an exception of the final close is not reported, D14)
+           lostClose 1 = threaded processor as it is (an exception of the final close is not reported, the behaviour before the D26 fix)
            variant ser|exe|frk, protocol 1 (current) | 0 (before the D3 fix) | 2 (before the D12 fix), rmorder li|mf|ml,
-           fault `none` | `exc@k` | `db@k` | `da@k` (k-th FS operation of the attempt) | `ab@k` (exception thrown in after k ops)
+           fault `none` | `+`-separated list of `exc@k` | `db@k` | `da@k` (k-th FS operation of the attempt) | `ab@k` (exception
+           thrown in after k ops)
   report   `<result> find=<ok|err Kind> load=<ok chunks|err Kind> d12=<0|1> ops=<op,op,…>`
 -/
 namespace Strax.Driver.C04
@@ -38,14 +39,17 @@ def c04Proto : String → Option Proto
 def c04RmOrder : String → Option RmOrder
   | "li" => some .sorted | "mf" => some .metaFirst | "ml" => some .metaLast | _ => none
 
-def c04Fault (s : String) : Option (Option Fault) :=
-  if s == "none" then some none else
+def c04Fault1 (s : String) : Option Fault :=
   match s.splitOn "@" with
-  | ["exc", k] => do pure (some ⟨← k.toNat?, .exc⟩)
-  | ["db", k] => do pure (some ⟨← k.toNat?, .dieBefore⟩)
-  | ["da", k] => do pure (some ⟨← k.toNat?, .dieAfter⟩)
-  | ["ab", k] => do pure (some ⟨← k.toNat?, .abort⟩)
+  | ["exc", k] => do pure ⟨← k.toNat?, .exc⟩
+  | ["db", k] => do pure ⟨← k.toNat?, .dieBefore⟩
+  | ["da", k] => do pure ⟨← k.toNat?, .dieAfter⟩
+  | ["ab", k] => do pure ⟨← k.toNat?, .abort⟩
   | _ => none
+
+/-- `none` or `+`-separated faults of one attempt, e.g. `exc@7+da@12` -/
+def c04Fault (s : String) : Option (List Fault) :=
+  if s == "none" then some [] else (s.splitOn "+").mapM c04Fault1
 
 def showDirId : DirId → String
   | .final => "F" | .temp => "T"
@@ -95,7 +99,7 @@ structure C04Attempt where
   v : Variant
   proto : Proto
   order : RmOrder
-  fault : Option Fault
+  fault : List Fault
   extraStart : Nat
   extra : List Chunk
   abandoned : Bool
@@ -147,7 +151,7 @@ def handleC04 : List String → Option String
     let cs ← c04Chunks chunks
     let v ← c04Variant v
     let r ← c04Proto r
-    let (rr, _) := attempt FS.empty v r cs ⟨v, [], 0, false, false⟩ .sorted none
+    let (rr, _) := attempt FS.empty v r cs ⟨v, [], 0, false, false⟩ .sorted []
     pure <| showOps rr.log.reverse
   | _ => none
 
